@@ -228,7 +228,7 @@ func runC20(c *an.Ctx) {
 	}
 	if af := cm(c, "R3", "Coordinate", "ApplyForce"); af != nil {
 		sts := an.StoresTo(af, ".Height")
-		c.Floor("R3", "stores to the result height in ApplyForce", len(sts), 2)
+		c.Floor("R3", "stores to the result height in ApplyForce", len(sts), 1)
 		for _, st := range sts {
 			if strings.HasPrefix(an.Path(st.Val), "math.Max(") {
 				c.Add(strings.HasSuffix(an.Path(st.Val), ",$1.HeightMin)"), "R3", "ApplyForce:floor-operand", st, "the height is floored at config.HeightMin", "value path")
